@@ -23,7 +23,10 @@ abstract Instance.call -> `__call__` or NotCallable      modelCall
 LOAD_ATTR + CALL                                         modelMCall
 
 builtin operands: real pytype's verdict per (value class, operator, value class) comes from the
-regenerated table (`BView.py`); only the Boolean "an error is reported" is visible there.
+regenerated table (`BView.py`); only the Boolean "an error is reported" is visible there.  A builtin
+signature applied to a user-class instance is read from the rows of two pseudo-classes: `user`
+(dunder-less class) and `userIter` (class with `__getitem__`: pytype's matcher lets it pass for an
+`Iterable`, e.g. in `set.__sub__`) — `userCode`.
 
 CPython 3.12                                            specification
 -----------------------------------------------------  ------------------------------------------
